@@ -38,7 +38,7 @@ class Checker:
 
     def __init__(self):
         self.fires = {}
-        self.value_ok = set()
+        self.state_ok = set()
 
     def fire(self, k, n=1):
         self.fires[k] = self.fires.get(k, 0) + n
@@ -53,6 +53,18 @@ class Checker:
                 d = symval.first_diff(ret, ref) or ""
                 probs.append("contract returned a " + ("wrong shape" if d.startswith("shape") else "wrong value"))
         S, raw_fp = H.clone_fp(st.tree)
+        # every check below is a deterministic function of the complete state
+        # of the snapshot (and of the projections requested): a state that is
+        # byte-for-byte identical to one already found in order is not
+        # examined again
+        fp = (raw_fp, tuple(sorted(st.proj.items())))
+        if fp in self.state_ok:
+            self.fire("identical state already checked (wf + value skipped)")
+            if st.orig is not None:
+                self.fire("copy-independence")
+                probs += ["copy: " + p for p in H.orig_problems(st)]
+            return probs
+        n_before = len(probs)
         self.fire("wf.structure")
         ps = H.structure_problems(S)
         if not ps:
@@ -80,18 +92,10 @@ class Checker:
         if nrec:
             self.fire("wf.recipes+compiled-contractors", nrec)
         probs += ["wf: " + p for p in H.recipe_problems(S)]
-        # the value check is a deterministic function of the complete state of
-        # the snapshot: an identical state that already contracted to the right
-        # value (same projections) need not be contracted again
-        fp = (raw_fp, tuple(sorted(st.proj.items())))
-        if fp in self.value_ok:
-            self.fire("value(snapshot, identical state already checked)")
-        else:
-            self.fire("value(snapshot)")
-            vp = H.value_problems(S, env, st.proj)
-            probs += ["value: " + p for p in vp]
-            if not vp:
-                self.value_ok.add(fp)
+        self.fire("value(snapshot)")
+        probs += ["value: " + p for p in H.value_problems(S, env, st.proj)]
+        if len(probs) == n_before:
+            self.state_ok.add(fp)
         if st.orig is not None:
             self.fire("copy-independence")
             probs += ["copy: " + p for p in H.orig_problems(st)]
